@@ -340,6 +340,14 @@ class Repo:
 
     def mro(self, ci: ClassInfo) -> list:
         """C3 linearisation over repository classes (external bases are dropped but recorded)."""
+        cache = self.__dict__.setdefault("_mro_cache", {})
+        if ci.fq in cache and cache[ci.fq][0] is ci:
+            return list(cache[ci.fq][1])
+        res = self._mro(ci)
+        cache[ci.fq] = (ci, res)
+        return list(res)
+
+    def _mro(self, ci: ClassInfo) -> list:
         def merge(seqs):
             res = []
             seqs = [list(s) for s in seqs if s]
